@@ -1,2 +1,55 @@
-(** C14 — placeholder (theorems follow) *)
-From MM Require Import Model.Flood.
+(** C14 — origin re-announcements always refresh every receiver. *)
+From Coq Require Import List NArith.
+From MM Require Import Model.Flood Proofs.FloodBase Proofs.FloodOnce Proofs.FloodSeq Generated.C14.
+Import ListNotations.
+Local Open Scope N_scope.
+
+(** Sequence authenticity.  In every reachable state (any topology, any
+    history of connects with full-table replays, disconnects, announcements,
+    delivery orders, duplicates, expiry) no table entry, no seen-cache key and
+    no frame in flight carries a sequence number of origin o that o's own
+    counter has not reached: replays never invent sequence numbers. *)
+Theorem C14_sequences_are_the_origins : forall cf k ops,
+  let s := run cf (init k) ops in
+  (forall n ns e, get (st_nodes s) n = Some ns -> In e (ns_entries ns) -> e_seq e <= ctr s (e_origin e)) /\
+  (forall n ns x, get (st_nodes s) n = Some ns -> In x (ns_seen ns) -> s_seq x <= ctr s (s_origin x)) /\
+  (forall m, In m (st_flight s) -> a_seq (m_adv m) <= ctr s (a_origin (m_adv m))).
+Proof. exact sequences_are_the_origins. Qed.
+Print Assumptions C14_sequences_are_the_origins.
+
+(** Hence no relayed replay can make an agent ignore a later genuine
+    announcement: the next announcement of o (sequence ctr+1) is in no seen
+    cache and is strictly newer than every stored copy of o's routes and than
+    every frame of o still in flight. *)
+Theorem C14_next_announcement_is_fresh : forall cf k ops o,
+  let s := run cf (init k) ops in
+  let sq := ctr s o + 1 in
+  (forall n, has_seen s n o sq = false) /\
+  (forall n ns e, get (st_nodes s) n = Some ns -> In e (ns_entries ns) -> e_origin e = o -> e_seq e < sq) /\
+  (forall m, In m (st_flight s) -> a_origin (m_adv m) = o -> a_seq (m_adv m) < sq).
+Proof. exact next_announcement_is_fresh. Qed.
+Print Assumptions C14_next_announcement_is_fresh.
+
+Section SourceFacts.
+Import String.
+Local Open Scope string_scope.
+(** Source facts regenerated on this run: replays are grouped by
+    replayKeyFor(origin, sequence, path) in all four tables; the group's own
+    sequence is what is sent, a fresh one only for the replaying agent's own
+    routes (the single IncrementSequence call of SendFullTable); seen-by = path
+    and a peer on the path is skipped; AddRoute of all four tables accepts
+    "newer sequence, or same sequence and better metric"; announcements take a
+    fresh sequence (counter + 1) under the agent's own id. *)
+Theorem C14_source_facts :
+  gen_replay_key_fields = ["origin"; "seq"; "path"] /\
+  gen_replay_key_own_group_else_origin_seq_path = true /\
+  gen_replay_tables_grouped_by_key = 4%nat /\
+  gen_replay_sequence_is_stored_one_fresh_only_for_own = true /\
+  gen_replay_adv_sequence = "seq" /\ gen_replay_adv_origin = "originAgent" /\
+  gen_replay_adv_seenby = "path" /\ gen_replay_adv_path = "path" /\
+  gen_replay_skips_peer_on_path = true /\
+  gen_addroute_newer_or_better_tables = 4%nat /\
+  gen_announce_fresh_sequence_own_origin = true /\ gen_increment_sequence_is_plus_one = true.
+Proof. repeat split; reflexivity. Qed.
+End SourceFacts.
+Print Assumptions C14_source_facts.
